@@ -2,7 +2,10 @@
    unquote) over C03/Model.v (quote, converters, matcher).  roundtrip c v says: to_url builds a text u,
    the delivered text unquote u is in the converter's language, and to_python of it is v. *)
 From Coq Require Import ZArith.
-From Wz Require Import lib.Bytes lib.Utf8 C03.Gen C03.Trie C03.Model C03.Proofs C04.Model C04.Proofs C04.MapProofs C04.SubdomainProofs.
+From Coq Require Import Permutation.
+From Wz Require Import lib.Bytes lib.Utf8 C03.Gen C03.Trie C03.Model C03.Proofs C04.Model C04.Proofs C04.MapProofs C04.SubdomainProofs
+  C04.Factories C04.FactoryProofs.
+From Wz Require C02.Model C02.Proofs.
 Open Scope N_scope.
 
 (* percent-encoding: what quote produces (any safe set without the percent sign) is read back by unquote *)
@@ -177,6 +180,153 @@ Theorem C04_match_then_build_floats : forall m r vals ts caps vs tts restP tcaps
     /\ build_rule r (unraw_all (vs ++ tvs)) = BOk ([], path).
 Proof. exact match_then_build_floats. Qed.
 Print Assumptions C04_match_then_build_floats.
+
+(* ------------------------------------------------------------------ rule factories and query extras
+   (C04/Factories.v: Submount, Subdomain, EndpointPrefix, RuleTemplate as functions rule -> rule; the harness runs the
+   model's factories against werkzeug's on every map it builds through them)
+
+   The map-level theorem without a shape requirement on the other rules: the rule that built the URL answers the
+   request for it when it is the only rule of the map admitting the built path (sole_admitter; map_distinct implies it). *)
+Theorem C04_build_then_match_sole : forall m r vals dt dcaps dvs ts caps vs tts restP tcaps tvs k rest meth ws,
+  In r (m_rules m) ->
+  dom_built (r_defaults r) vals (r_dom r) dt dcaps dvs -> r_segs r = SLit k :: rest ->
+  segs_built (r_defaults r) vals (r_segs r) ts caps vs ->
+  tail_built (r_defaults r) vals (is_branch r) (r_tail r) tts restP tcaps tvs ->
+  sole_admitter m r (dt :: [] :: ts ++ restP) ->
+  rmethod_ok r meth = true -> r_websocket r = ws ->
+  exists path, build_rule r vals = BOk (dt, path)
+    /\ matcher_run m (trie_of m) dt (path_part (unquote path)) meth ws = MOk rule (list (str * value)) r (dvs ++ vs ++ tvs).
+Proof. exact build_then_match_sole. Qed.
+Print Assumptions C04_build_then_match_sole.
+
+(* Submount('/k/ks..', [r]): whatever r builds and matches, the submounted rule builds behind the prefix and matches *)
+Theorem C04_submount_build_then_match : forall m' r vals k ks dt dcaps dvs ts caps vs tts restP tcaps tvs meth ws,
+  let r' := submount (map SLit (k :: ks)) r in
+  In r' (m_rules m') -> Forall good_lit (k :: ks) ->
+  dom_built (r_defaults r) vals (r_dom r) dt dcaps dvs ->
+  segs_built (r_defaults r) vals (r_segs r) ts caps vs ->
+  tail_built (r_defaults r) vals (is_branch r) (r_tail r) tts restP tcaps tvs ->
+  sole_admitter m' r' (dt :: [] :: ((k :: ks) ++ ts) ++ restP) ->
+  rmethod_ok r meth = true -> r_websocket r = ws ->
+  exists path, build_rule r' vals = BOk (dt, path)
+    /\ matcher_run m' (trie_of m') dt (path_part (unquote path)) meth ws = MOk rule (list (str * value)) r' (dvs ++ vs ++ tvs).
+Proof. exact submount_build_then_match. Qed.
+Print Assumptions C04_submount_build_then_match.
+
+(* the prefix is transparent: under Submount a rule admits prefix ++ P exactly as the inner rule admits P, so the
+   sole admitter of the inner map stays the sole admitter of the submounted map *)
+Theorem C04_admits_submount : forall m m' k ks r dk d e P,
+  m_strict m' = m_strict m -> r_dom r = SLit dk ->
+  admits m' (submount (map SLit (k :: ks)) r) (d :: e :: (k :: ks) ++ P) = admits m r (d :: e :: P).
+Proof. exact admits_submount. Qed.
+Print Assumptions C04_admits_submount.
+
+Theorem C04_sole_admitter_submount : forall m k ks r dk0 d e P,
+  (forall r0, In r0 (m_rules m) -> exists dk, r_dom r0 = SLit dk) -> r_dom r = SLit dk0 ->
+  sole_admitter m r (d :: e :: P) ->
+  (forall r1 r2, In r1 (m_rules m) -> In r2 (m_rules m) -> r_idx r1 = r_idx r2 -> r1 = r2) ->
+  sole_admitter (map_rules m (map (submount (map SLit (k :: ks))) (m_rules m))) (submount (map SLit (k :: ks)) r)
+    (d :: e :: (k :: ks) ++ P).
+Proof. exact sole_admitter_submount. Qed.
+Print Assumptions C04_sole_admitter_submount.
+
+(* Subdomain('dk', [r]) *)
+Theorem C04_subdomain_factory : forall m' r vals dk ts caps vs tts restP tcaps tvs k rest meth ws,
+  let r' := with_dom (SLit dk) r in
+  In r' (m_rules m') -> quote safe_literal dk = dk -> r_segs r = SLit k :: rest ->
+  segs_built (r_defaults r) vals (r_segs r) ts caps vs ->
+  tail_built (r_defaults r) vals (is_branch r) (r_tail r) tts restP tcaps tvs ->
+  sole_admitter m' r' (dk :: [] :: ts ++ restP) ->
+  rmethod_ok r meth = true -> r_websocket r = ws ->
+  exists path, build_rule r' vals = BOk (dk, path)
+    /\ matcher_run m' (trie_of m') dk (path_part (unquote path)) meth ws = MOk rule (list (str * value)) r' (vs ++ tvs).
+Proof. exact with_dom_build_then_match. Qed.
+Print Assumptions C04_subdomain_factory.
+
+Theorem C04_admits_subdomain : forall m m' r dk P,
+  m_strict m' = m_strict m -> r_dom r = SLit [] ->
+  admits m' (with_dom (SLit dk) r) (dk :: P) = admits m r ([] :: P).
+Proof. exact admits_with_dom. Qed.
+Print Assumptions C04_admits_subdomain.
+
+(* Subdomain('api', [Submount('/api/v1', [Rule('/users/<int:id>/x-<string:n>'), Rule('/all/')])]) *)
+Example C04_factories_example :
+  build_rule (with_dom (SLit API3) (submount (map SLit [API3; V1]) ex_users)) ex_vals = BOk (API3, ex_fpath)
+  /\ matcher_run ex_fmap (trie_of ex_fmap) API3 (path_part (unquote ex_fpath)) GET false
+     = MOk rule (list (str * value)) (with_dom (SLit API3) (submount (map SLit [API3; V1]) ex_users)) [([105; 100], VInt 42); ([110], VStr [233; 32; 37])]
+  /\ Forall good_lit [API3; V1].
+Proof. exact ex_factories. Qed.
+Print Assumptions C04_factories_example.
+
+(* EndpointPrefix (an injective renaming f of endpoints): building f(e) in the prefixed map is building e in the inner map *)
+Theorem C04_endpoint_prefix : forall f, (forall x y, f x = f y -> x = y) -> forall m a e vals meth fe,
+  adapter_build (map_rules m (map (with_endpoint f) (m_rules m))) a (f e) vals meth fe = adapter_build m a e vals meth fe.
+Proof. exact adapter_build_prefix. Qed.
+Print Assumptions C04_endpoint_prefix.
+
+Example C04_endpoint_prefix_example :
+  adapter_build (map_rules ex_map4 (map (with_endpoint (N.add 7)) (m_rules ex_map4))) ex_adapter 7 ex_vals None false
+  = adapter_build ex_map4 ex_adapter 0 ex_vals None false
+  /\ exists u, adapter_build ex_map4 ex_adapter 0 ex_vals None false = BOk (Some u).
+Proof. exact ex_prefix. Qed.
+Print Assumptions C04_endpoint_prefix_example.
+
+(* RuleTemplate: string.Template substitution of plain text, then a placeholder, then the rest (the unbraced
+   placeholder form and malformed templates are outside the model: None) *)
+Theorem C04_template_subst : forall ctx pre n rest,
+  mem DOLLAR pre = false -> mem RBRACE n = false ->
+  subst ctx (pre ++ DOLLAR :: LBRACE :: n ++ RBRACE :: rest)
+  = match ctx_get n ctx with Some v => option_map (fun t => pre ++ v ++ t) (subst ctx rest) | None => None end.
+Proof. exact subst_placeholder. Qed.
+Print Assumptions C04_template_subst.
+
+Example C04_template_example :
+  template [([112], USERS)] ex_tmpl = Some ex_users
+  /\ option_map r_segs (template [([112], API3 ++ [47] ++ V1)] ex_tmpl)
+     = Some (SLit API3 :: SLit V1 :: tl (r_segs ex_users))
+  /\ template [] ex_tmpl = None.
+Proof. exact ex_template. Qed.
+Print Assumptions C04_template_example.
+
+(* Query extras.  build(values + extras): the built text is the path of Rule.build, then '?' and the urlencode (the C02
+   model of werkzeug.urls._urlencode) of the extra items - list values one item per element, None dropped, sorted when
+   Map.sort_parameters (a permutation; unchanged when off).  A server that cuts the request target at the first '?'
+   recovers path and query string (given a path without '?'); the match of the path returns the values of the rule and
+   parse_qsl (C02) of the query string returns the extras as text (C02_urlencoded_roundtrip). *)
+Theorem C04_build_match_extras : forall s m r given extras dt dcaps dvs ts caps vs tts restP tcaps tvs k rest meth ws q,
+  In r (m_rules m) ->
+  dom_built (r_defaults r) given (r_dom r) dt dcaps dvs -> r_segs r = SLit k :: rest ->
+  segs_built (r_defaults r) given (r_segs r) ts caps vs ->
+  tail_built (r_defaults r) given (is_branch r) (r_tail r) tts restP tcaps tvs ->
+  sole_admitter m r (dt :: [] :: ts ++ restP) ->
+  rmethod_ok r meth = true -> r_websocket r = ws ->
+  (forall k v, In (k, v) given -> In k (rule_arguments r)) ->
+  (forall k x, In (k, x) extras -> has k (rule_arguments r) = false) ->
+  query_of s r (singles given ++ extras) = BOk q ->
+  exists path items,
+    build_rule_q s r given extras = BOk (dt, with_query path q)
+    /\ (mem QMARK path = false -> split_query (with_query path q) = (path, q))
+    /\ matcher_run m (trie_of m) dt (path_part (unquote path)) meth ws = MOk rule (list (str * value)) r (dvs ++ vs ++ tvs)
+    /\ sorted_items s (flat_map (fun kx => items_of (fst kx) (snd kx)) extras) = BOk items
+    /\ Permutation (flat_map (fun kx => items_of (fst kx) (snd kx)) extras) items
+    /\ (s = SortOff -> items = flat_map (fun kx => items_of (fst kx) (snd kx)) extras)
+    /\ let t := map (fun kv => (fst kv, value_str (snd kv))) (present items) in
+       q = C02.Model.urlencode t /\ (forallb C02.Proofs.valid_pair t = true -> C02.Model.parse_qsl q = t).
+Proof. exact build_match_extras. Qed.
+Print Assumptions C04_build_match_extras.
+
+(* build('users', id=42, n='e-acute space percent', q='a b', l=[1, None, 2], z=None) *)
+Example C04_extras_example :
+  build_rule_q SortOff ex_users ex_vals ex_extras
+  = BOk ([], [47] ++ USERS ++ [47; 52; 50; 47; 120; 45; 37; 67; 51; 37; 65; 57; 37; 50; 48; 37; 50; 53]
+             ++ [63; 113; 61; 97; 43; 98; 38; 108; 61; 49; 38; 108; 61; 50])
+  /\ C02.Model.parse_qsl [113; 61; 97; 43; 98; 38; 108; 61; 49; 38; 108; 61; 50]
+     = [([113], [97; 32; 98]); ([108], [49]); ([108], [50])]
+  /\ build_rule_q SortByKey ex_users ex_vals ex_extras
+     = BOk ([], [47] ++ USERS ++ [47; 52; 50; 47; 120; 45; 37; 67; 51; 37; 65; 57; 37; 50; 48; 37; 50; 53]
+                ++ [63; 108; 61; 49; 38; 108; 61; 50; 38; 113; 61; 97; 43; 98]).
+Proof. exact ex_extras_build. Qed.
+Print Assumptions C04_extras_example.
 
 (* Observed, and outside the domain of C04: converter arguments in a rule string cannot be negative
    (Rule('/<int(min=-10):p>') -> ValueError "Cannot parse converter argument 'min=-'" when the map is constructed:
